@@ -70,6 +70,8 @@ type Interp struct {
 	funcIntr    map[*ssa.Function]intrinsic
 	funcIntrNeg map[*ssa.Function]bool
 
+	initSteps int
+
 	// per-path state
 	P  *PathState
 	ex *Explorer
@@ -208,6 +210,9 @@ func (in *Interp) initPackage(pkg *ssa.Package) {
 	saveEpoch := in.epoch
 	in.epoch = 0
 	in.initMode++
+	if in.initMode == 1 {
+		in.initSteps = 0
+	}
 	for _, m := range pkg.Members {
 		if g, ok := m.(*ssa.Global); ok {
 			et := g.Type().(*types.Pointer).Elem()
@@ -318,6 +323,11 @@ func (in *Interp) callSSA(caller *frame, fn *ssa.Function, args []Value, env []V
 		in.stubsUsed[fn.String()]++
 		return h(in, caller, args, nil)
 	}
+	if fn.Synthetic == "package initializer" && !tolerant {
+		// a package initializer calling its imports' initializers: packages are initialised
+		// lazily on first access to one of their globals instead
+		return nil
+	}
 	in.ensureBuilt(fn)
 	if fn.Blocks == nil {
 		panic(unsupported{"no body for " + fn.String()})
@@ -402,7 +412,12 @@ func (in *Interp) runFrame(fr *frame) {
 					fmt.Fprintf(os.Stderr, "\t%s\n", instr)
 				}
 			}
-			if in.P != nil {
+			if in.initMode > 0 {
+				in.initSteps++
+				if in.initSteps > in.opts.MaxInitSteps {
+					panic(boundExceeded{"package init step budget"})
+				}
+			} else if in.P != nil {
 				in.P.steps++
 				if in.P.steps > in.opts.MaxSteps {
 					panic(boundExceeded{"step budget"})
@@ -543,6 +558,18 @@ func (in *Interp) prepareCall(fr *frame, call *ssa.CallCommon) (Value, []Value) 
 		}
 		if h := reflectMethod(in, recv, call.Method); h != nil {
 			fn = h
+		} else if so, ok := recv.v.(StubObj); ok {
+			sig := call.Method.Type().(*types.Signature)
+			fn = &BoundIntrinsic{name: so.name + "." + call.Method.Name(), fn: func(in *Interp, fr *frame, a []Value, _ *ssa.CallCommon) Value {
+				in.stubsUsed["stub object "+so.name+"."+call.Method.Name()]++
+				switch sig.Results().Len() {
+				case 0:
+					return nil
+				case 1:
+					return in.zero(sig.Results().At(0).Type())
+				}
+				return in.zero(sig.Results())
+			}}
 		} else {
 			f := in.prog.LookupMethod(recv.t, call.Method.Pkg(), call.Method.Name())
 			if f == nil {
